@@ -84,7 +84,14 @@ def upgrade_exception(E, args, kwargs, node):
     return VT([VO_term(f(E.to_val(t)), E.fresh('uet')), VO_term(g(E.to_val(t), E.to_val(v)), E.fresh('uev'))])
 
 
+def exc_ctor(name):
+    def f(E, args, kwargs, node):
+        return VExc(exc_canon(name), args)
+    return f
+
+
 TABLE = {
+    'zExceptions.Unauthorized': exc_ctor('Unauthorized'),
     'sys.exc_info': sys_exc_info,
     'io.StringIO': stringio_new,
     'io.StringIO.getvalue': stringio_getvalue,
